@@ -368,7 +368,11 @@ pub fn start_watchdog(
                 // wall-clock backstop only if CPU accounting is unavailable
                 let wall_s = seen[i].2.elapsed().as_secs();
                 if burnt_s >= lim || (cpu.is_none() && wall_s >= lim * 20) {
-                    on_timeout(&s.prop, &s.label, &s.replay_json);
+                    let (prop, label, json) = (s.prop.clone(), s.label.clone(), s.replay_json.clone());
+                    drop(s);
+                    // returns only if the stall did not replay: start counting afresh
+                    on_timeout(&prop, &label, &json);
+                    seen[i] = (e, cpu, Instant::now());
                 }
             }
         }
